@@ -258,6 +258,7 @@ func (n *Net) Dial(ctx context.Context, network, address string) (net.Conn, erro
 		ln.queue = append(ln.queue, l.B)
 		ln.wait.wake()
 		n.W.Logf("dial #%d connected to listener link=%d", attempt, l.Gen)
+		l.A.Handed = true
 		n.mu.Unlock()
 
 		return l.A, nil
@@ -286,6 +287,7 @@ func (n *Net) Dial(ctx context.Context, network, address string) (net.Conn, erro
 	l.a2b.sink = func(b []byte) { raw.OnData(l, b) }
 	l.a2b.onEOF = func() { raw.OnEOF(l) }
 	n.W.Logf("dial #%d connected to raw peer link=%d", attempt, l.Gen)
+	l.A.Handed = true
 
 	return l.A, nil
 }
@@ -377,6 +379,7 @@ func (ln *Listener) Accept() (net.Conn, error) {
 			c := ln.queue[0]
 			ln.queue = ln.queue[1:]
 			ln.Accepts++
+			c.Handed = true
 			ln.n.W.Logf("accept ln%d conn=%d", ln.id, c.id)
 			ln.n.mu.Unlock()
 
@@ -435,6 +438,9 @@ type Conn struct {
 	CloseCalls    int
 	// ClosedAt is the simulated time of the first Close call on this end (-1 = never closed).
 	ClosedAt time.Duration
+	// Handed reports whether this end was actually handed to its user (returned by Dial / Accept).
+	// A connection that only ever sat in a listener's backlog was never the user's to close.
+	Handed bool
 }
 
 // ID returns the connection's ordinal.
